@@ -212,17 +212,15 @@ func (g *gen) randSub(unrestricted bool) subSpec {
 		}
 		g.applyTx(&s, r.Intn(len(s.Txs)), hlib.Pick(r, txViolations))
 	}
+	// a wrapper that is not the group's first transaction (every stream: the pool must refuse it)
+	if s.Kind == "group" && r.Chance(1, 10) {
+		g.foreignWrap(&s)
+	}
 	if unrestricted {
 		switch z := r.Intn(12); {
 		case z == 0 && g.h.Para:
 			s.Forward = true
 			s.Viol = append(s.Viol, "forward")
-		case z == 1 && s.Kind == "group":
-			s.Wrap, s.WrapSender = hlib.Pick(r, []string{"sig", "fee", "eth"}), r.Intn(3)
-			if s.Wrap == "eth" {
-				s.WrapSender, s.WrapNonce = kEth0+r.Intn(2), int64(r.Range(0, 6))
-			}
-			s.Viol = append(s.Viol, "wrap-"+s.Wrap)
 		case z == 2 && s.Kind == "plain" && g.h.MinFee == 0:
 			v := -int64(r.Range(1, 5000))
 			s.Txs[0].FeeAbs = &v
@@ -237,6 +235,17 @@ func (g *gen) randSub(unrestricted bool) subSpec {
 		}
 	}
 	return s
+}
+
+var wrapKinds = []string{"sig", "fee", "eth", "sigbytes", "nosig"}
+
+func (g *gen) foreignWrap(s *subSpec) {
+	r := g.r
+	s.Wrap, s.WrapSender = hlib.Pick(r, wrapKinds), r.Intn(3)
+	if s.Wrap == "eth" {
+		s.WrapSender, s.WrapNonce = kEth0+r.Intn(2), int64(r.Range(0, 6))
+	}
+	s.Viol = append(s.Viol, "wrap-"+s.Wrap)
 }
 
 func genHist(stream string, seed uint64, index int, thorough bool) histSpec {
@@ -327,6 +336,21 @@ func clauseMatrix(seed uint64) []histSpec {
 					bad.Viol = []string{"memberfee"}
 					h.Subs = append(h.Subs, bad)
 				}
+				// the wrapper is not the group's first transaction: other signer, other fee (other hash), eth
+				// signer with a chosen nonce, other signature bytes, no signature; each next to an accepted twin
+				if shape == "head" {
+					for _, wk := range wrapKinds {
+						ok, _ := mk()
+						h.Subs = append(h.Subs, ok)
+						bad, _ := mk()
+						bad.Wrap, bad.WrapSender = wk, (bad.Txs[0].Sender+1)%3
+						if wk == "eth" {
+							bad.WrapSender, bad.WrapNonce = kEth0, 5
+						}
+						bad.Viol = []string{"wrap-" + wk}
+						h.Subs = append(h.Subs, bad)
+					}
+				}
 			}
 			out = append(out, h)
 		}
@@ -389,7 +413,7 @@ func clauseMatrix(seed uint64) []histSpec {
 	return out
 }
 
-// witnesses of the refutation theorems, on the real code
+// witnesses of the refutation theorems (and the former witness of the fixed finding 2), on the real code
 func witnesses(seed uint64) []histSpec {
 	var out []histSpec
 	// 1. forwarded transaction on a parachain node: expired, blacklisted recipient, no fee
@@ -403,13 +427,14 @@ func witnesses(seed uint64) []histSpec {
 	s.Txs[0].FeeAbs = &z
 	h.Subs = []subSpec{s}
 	out = append(out, h)
-	// 2. group wrapper carrying another account's public key
+	// 2. (finding 2, fixed) group wrapper carrying another account's public key: refused; that account's own
+	// transaction is admitted afterwards, and so is an honestly wrapped group of the first account
 	h = baseHist("witness-wrapper", seed, 1)
 	h.PerSender = 1
 	g = newGen(hlib.NewRng(2), &h)
 	w := g.group(2, 0, 0)
 	w.Wrap, w.WrapSender = "sig", 1
-	h.Subs = []subSpec{w, g.plain(1)}
+	h.Subs = []subSpec{w, g.plain(1), g.group(2, 0, 0)}
 	out = append(out, h)
 	// 3. negative fee with a zero minimum rate
 	h = baseHist("witness-negfee", seed, 2)
